@@ -64,6 +64,11 @@ def lin(e, env):
         if a is None or b is None:
             return None
         return {("min", _freeze(a), _freeze(b)): 1}
+    if isinstance(e, ast.Call) and call_name(e) == "max" and len(e.args) == 2:
+        a, b = lin(e.args[0], env), lin(e.args[1], env)
+        if a is None or b is None:
+            return None
+        return {("max", _freeze(a), _freeze(b)): 1}
     if isinstance(e, ast.Call) and call_name(e) == "int" and len(e.args) == 1:
         return lin(e.args[0], env)
     if isinstance(e, ast.Call) and call_name(e) == "len" and env.get("__len__") and "self" in src(e):
@@ -79,7 +84,7 @@ def fmt(l):
     parts = []
     for k, v in l.items():
         if isinstance(k, tuple):
-            name = "min(%s, %s)" % (fmt(dict(k[1])), fmt(dict(k[2])))
+            name = "%s(%s, %s)" % (k[0], fmt(dict(k[1])), fmt(dict(k[2])))
         else:
             name = {"O": "offset", "P": "pos", "T": "len", "N": "n", "1": ""}.get(k, k)
         if k == "1":
@@ -131,142 +136,467 @@ def check(ctx):
     _lines_per_frame(ctx)
 
 
+# ---------------------------------------------------------------------------------------------
+# R1: path interpreter for seek().  The position is a linear form over the *initial* position P, the offset O and the
+# length T; locals hold linear forms or None; tests on whence / the sign of offset / `x is None` are decided from the case
+# under analysis, every other test forks.  Helper methods self._x() are interpreted in place.  Which names the
+# locals carry and how the branches are laid out does not matter.
+# ---------------------------------------------------------------------------------------------
+POS_EFFECTS = {
+    # callee -> ("add", k) | ("set", 0): summaries of what a call does to the position (R3 decides the first for _read)
+    "mdcrd": {"self._read": ("add", 1)}, "xyz": {"self._read": ("add", 1)}, "lammpstrj": {"self._read": ("add", 1)},
+    "dcd": {"read_next_timestep": ("add", 1), "dcd_rewind": ("set", 0)},
+}
+POS_FIELDS = ("self._frame_index", "self.frame_counter")
+
+
+class _Undec(Exception):
+    pass
+
+
+class _SeekState:
+    def __init__(self):
+        self.env = {}
+        self.none = set()
+        self.P = {"P": 1}
+        self.conds = []
+
+    def copy(self):
+        o = _SeekState()
+        o.env = dict(self.env)
+        o.none = set(self.none)
+        o.P = dict(self.P)
+        o.conds = list(self.conds)
+        return o
+
+    def full_env(self):
+        e = {"offset": {"O": 1}, "__len__": True}
+        for t in ("self.n_frames", "len(self._handle.root.coordinates)", "len(self._handle.root.XYZList)", "len(self)", "self._n_frames", "len(self.offsets)"):
+            e[t] = {"T": 1}
+        e.update(self.env)
+        for p in POS_FIELDS + ("self.tell()",):
+            e[p] = dict(self.P)
+        return e
+
+
+def _clean(l):
+    return {k: v for k, v in l.items() if v != 0}
+
+
+class _SeekInterp:
+    def __init__(self, ctx, key, w, sign):
+        self.ctx, self.key, self.w, self.sign = ctx, key, w, sign
+        self.effects = POS_EFFECTS.get(key, {})
+        self.depth = 0
+
+    # ---- tests
+    def test(self, e, st):
+        """True / False / None (unknown); unknown comparisons of linear forms are returned as ('cmp', l, op, r)."""
+        if isinstance(e, ast.BoolOp):
+            vals = [self.test(v, st) for v in e.values]
+            if isinstance(e.op, ast.And):
+                if any(v is False for v in vals):
+                    return False
+                if all(v is True for v in vals):
+                    return True
+                return None
+            if any(v is True for v in vals):
+                return True
+            if all(v is False for v in vals):
+                return False
+            return None
+        if isinstance(e, ast.UnaryOp) and isinstance(e.op, ast.Not):
+            v = self.test(e.operand, st)
+            return None if v is None else (not v)
+        if isinstance(e, ast.Compare) and len(e.ops) == 1:
+            l, op, r = e.left, e.ops[0], e.comparators[0]
+            ls, rs = src(l), src(r)
+            if "mode" in ls and isinstance(r, ast.Constant) and isinstance(r.value, str):
+                if isinstance(op, ast.Eq):
+                    return r.value == "r"
+                if isinstance(op, ast.NotEq):
+                    return r.value != "r"
+            if ls == "whence" and isinstance(r, ast.Constant) and isinstance(op, (ast.Eq, ast.NotEq)):
+                v = (self.w == r.value)
+                return v if isinstance(op, ast.Eq) else not v
+            if ls == "offset" and isinstance(r, ast.Constant) and r.value == 0:
+                sg = {"neg": -1, "zero": 0, "pos": 1}[self.sign]
+                return {ast.Lt: sg < 0, ast.LtE: sg <= 0, ast.Gt: sg > 0, ast.GtE: sg >= 0, ast.Eq: sg == 0, ast.NotEq: sg != 0}.get(type(op))
+            if isinstance(op, (ast.Is, ast.IsNot)) and isinstance(r, ast.Constant) and r.value is None and isinstance(l, ast.Name):
+                if l.id in st.none:
+                    return isinstance(op, ast.Is)
+                if l.id in st.env:
+                    return isinstance(op, ast.IsNot)
+                return None
+        return None
+
+    def cond_of(self, e, st, outcome):
+        """Record a forked comparison of linear forms (used to recognise clamps and out-of-bounds refusals)."""
+        out = []
+        parts = e.values if isinstance(e, ast.BoolOp) else [e]
+        for c in parts:
+            if isinstance(c, ast.Compare) and len(c.ops) == 1:
+                env = st.full_env()
+                a, b = lin(c.left, env), lin(c.comparators[0], env)
+                if a is not None and b is not None:
+                    out.append((_freeze(a), type(c.ops[0]).__name__, _freeze(b), outcome, isinstance(e, ast.BoolOp) and type(e.op).__name__ or ""))
+                    continue
+            out.append(("env", src(c), None, outcome, ""))
+        return out
+
+    # ---- effects of calls inside a statement
+    def call_effects(self, node, st, times=None):
+        for c in ast.walk(node):
+            if isinstance(c, ast.Call):
+                nm = call_name(c) or ""
+                eff = self.effects.get(nm) or self.effects.get(nm.split(".")[-1])
+                if eff:
+                    if eff[0] == "add":
+                        if times is None:
+                            st.P = _clean({**st.P, "1": st.P.get("1", 0) + eff[1]})
+                        else:
+                            P = dict(st.P)
+                            for k, v in times.items():
+                                P[k] = P.get(k, 0) + v * eff[1]
+                            st.P = _clean(P)
+                    else:
+                        st.P = {} if eff[1] == 0 else {"1": eff[1]}
+
+    def touches_position(self, node):
+        for c in ast.walk(node):
+            if isinstance(c, ast.Call):
+                nm = call_name(c) or ""
+                if nm in self.effects or nm.split(".")[-1] in self.effects:
+                    return True
+                if nm.startswith("self.") and nm.count(".") == 1 and self.helper(nm[5:]) is not None:
+                    return True
+            if isinstance(c, (ast.Assign, ast.AugAssign)):
+                t = c.targets[0] if isinstance(c, ast.Assign) else c.target
+                if dotted(t) in POS_FIELDS:
+                    return True
+        return False
+
+    def helper(self, name):
+        if name in ("_read", "read", "seek", "tell", "close", "flush", "_validate", "_initialize_headers"):
+            return None
+        return F.method(self.ctx, self.key, name, required=False)
+
+    # ---- statements
+    def block(self, stmts, st):
+        live, done = [st], []
+        for s in stmts:
+            nxt = []
+            for x in live:
+                for (y, status) in self.step(s, x):
+                    (nxt if status == "fall" else done).append((y, status) if status != "fall" else y)
+            live = nxt
+            if len(live) + len(done) > 400:
+                raise _Undec("too many paths")
+        return [(x, "fall") for x in live] + done
+
+    def assign(self, target, value, st):
+        if isinstance(target, ast.Tuple) and isinstance(value, ast.Tuple) and len(target.elts) == len(value.elts):
+            for t, v in zip(target.elts, value.elts):
+                self.assign(t, v, st)
+            return
+        d = dotted(target)
+        if d in POS_FIELDS:
+            l = lin(value, st.full_env())
+            if l is None:
+                raise _Undec("cannot evaluate `%s = %s`" % (d, src(value)))
+            st.P = _clean(l)
+            return
+        if isinstance(target, ast.Name):
+            st.env.pop(target.id, None)
+            st.none.discard(target.id)
+            if isinstance(value, ast.Constant) and value.value is None:
+                st.none.add(target.id)
+            else:
+                l = lin(value, st.full_env())
+                if l is not None:
+                    st.env[target.id] = _clean(l)
+
+    def step(self, s, st):
+        if isinstance(s, ast.Raise):
+            return [(st, "raise:" + (src(s.exc) if s.exc is not None else ""))]
+        if isinstance(s, ast.Return):
+            return [(st, "return")]
+        if isinstance(s, (ast.Pass, ast.Assert, ast.Global, ast.Nonlocal, ast.Import, ast.ImportFrom)):
+            return [(st, "fall")]
+        if isinstance(s, ast.If):
+            v = self.test(s.test, st)
+            if v is True:
+                return self.block(s.body, st)
+            if v is False:
+                return self.block(s.orelse, st)
+            a, b = st.copy(), st.copy()
+            a.conds += self.cond_of(s.test, st, True)
+            b.conds += self.cond_of(s.test, st, False)
+            return self.block(s.body, a) + self.block(s.orelse, b)
+        if isinstance(s, ast.Assign) and len(s.targets) == 1:
+            self.call_effects(s.value, st)
+            self.inline_helpers(s.value, st)
+            self.assign(s.targets[0], s.value, st)
+            return [(st, "fall")]
+        if isinstance(s, ast.AnnAssign):
+            if s.value is not None:
+                self.assign(s.target, s.value, st)
+            return [(st, "fall")]
+        if isinstance(s, ast.AugAssign):
+            d = dotted(s.target)
+            l = lin(s.value, st.full_env())
+            if d in POS_FIELDS:
+                if l is None or not isinstance(s.op, (ast.Add, ast.Sub)):
+                    raise _Undec("cannot evaluate `%s`" % src(s))
+                sg = 1 if isinstance(s.op, ast.Add) else -1
+                P = dict(st.P)
+                for k, v in l.items():
+                    P[k] = P.get(k, 0) + sg * v
+                st.P = _clean(P)
+            elif isinstance(s.target, ast.Name):
+                cur = st.env.get(s.target.id)
+                if cur is not None and l is not None and isinstance(s.op, (ast.Add, ast.Sub)):
+                    sg = 1 if isinstance(s.op, ast.Add) else -1
+                    out = dict(cur)
+                    for k, v in l.items():
+                        out[k] = out.get(k, 0) + sg * v
+                    st.env[s.target.id] = _clean(out)
+                else:
+                    st.env.pop(s.target.id, None)
+            return [(st, "fall")]
+        if isinstance(s, ast.Expr):
+            res = self.inline_helpers(s.value, st, stmt=True)
+            if res is not None:
+                return res
+            self.call_effects(s.value, st)
+            return [(st, "fall")]
+        if isinstance(s, ast.For):
+            if not self.touches_position(s):
+                return [(st, "fall")]
+            it = s.iter
+            k = None
+            if isinstance(it, ast.Call) and call_name(it) == "range" and len(it.args) == 1:
+                k = lin(it.args[0], st.full_env())
+            simple = all(isinstance(b, (ast.Expr, ast.Assign, ast.Pass)) for b in s.body) and not any(
+                isinstance(n, (ast.Assign, ast.AugAssign)) and dotted(n.targets[0] if isinstance(n, ast.Assign) else n.target) in POS_FIELDS
+                for b in s.body for n in ast.walk(b))
+            if k is None or not simple or s.orelse:
+                raise _Undec("loop `for %s in %s` moves the position in a way that is not a counted repetition" % (src(s.target), src(it)))
+            for b in s.body:
+                self.call_effects(b, st, times=k)
+            return [(st, "fall")]
+        if isinstance(s, ast.While):
+            if self.touches_position(s):
+                raise _Undec("while loop moves the position")
+            return [(st, "fall")]
+        if isinstance(s, ast.With):
+            return self.block(s.body, st)
+        if isinstance(s, ast.Try):
+            out = []
+            for (x, status) in self.block(s.body + s.orelse, st):
+                if status == "fall":
+                    out += self.block(s.finalbody, x)
+                else:
+                    fin = self.block(s.finalbody, x)
+                    out += [(y, status if stt == "fall" else stt) for (y, stt) in fin]
+            return out
+        if self.touches_position(s):
+            raise _Undec("statement `%s` not interpreted" % src(s)[:60])
+        return [(st, "fall")]
+
+    def inline_helpers(self, e, st, stmt=False):
+        """self._helper() as a statement: interpret its body in place."""
+        if not (isinstance(e, ast.Call) and (call_name(e) or "").startswith("self.") and (call_name(e) or "").count(".") == 1):
+            return None
+        h = self.helper(call_name(e)[5:])
+        if h is None or not self.touches_position(h):
+            return None
+        if e.args or e.keywords or self.depth > 3 or not stmt:
+            raise _Undec("helper call `%s` with arguments / as a value is not interpreted" % src(e)[:60])
+        self.depth += 1
+        try:
+            saved_env, saved_none = st.env, st.none
+            st.env, st.none = {}, set()
+            res = self.block(h.body, st)
+            out = []
+            for (x, status) in res:
+                x.env, x.none = dict(saved_env), set(saved_none)
+                out.append((x, "fall" if status == "return" else status))
+            return out
+        finally:
+            self.depth -= 1
+
+
+def _clamp_ok(final, want, conds):
+    """final is `want` limited to [0, T]: by min/max forms or by an explicit test on the path."""
+    fw, T, Z = _freeze(want), _freeze({"T": 1}), _freeze({})
+    if final == want:
+        return True
+    if len(final) == 1:
+        (k, v), = final.items()
+        if isinstance(k, tuple) and v == 1:
+            args = set(k[1:])
+            if k[0] == "min" and args == {fw, T}:
+                return True
+            if k[0] == "max" and args == {fw, Z}:
+                return True
+            inner_min = _freeze({("min", fw, T): 1})
+            inner_min2 = _freeze({("min", T, fw): 1})
+            inner_max = _freeze({("max", fw, Z): 1})
+            inner_max2 = _freeze({("max", Z, fw): 1})
+            if k[0] == "max" and Z in args and (args & {inner_min, inner_min2}):
+                return True
+            if k[0] == "min" and T in args and (args & {inner_max, inner_max2}):
+                return True
+    for (a, op, b, outcome, _j) in conds:
+        if a == "env" or not outcome:
+            continue
+        if final == {"T": 1} and ((a == fw and b == T and op in ("Gt", "GtE")) or (b == fw and a == T and op in ("Lt", "LtE"))):
+            return True
+        if final == {} and ((a == fw and b == Z and op in ("Lt", "LtE")) or (b == fw and a == Z and op in ("Gt", "GtE"))):
+            return True
+    return False
+
+
+def _refusal_ok(want, conds):
+    """a raise on a path whose forked tests include an out-of-range test on the target or a test on the environment."""
+    fw, T, Z = _freeze(want), _freeze({"T": 1}), _freeze({})
+    for (a, op, b, outcome, join) in conds:
+        if a == "env":
+            if outcome and not any(t in (op or "") for t in ()):
+                return True
+            continue
+        true_side = outcome or join == "Or"
+        if (a == fw and b in (T, Z)) or (b == fw and a in (T, Z)):
+            if true_side:
+                return True
+    return False
+
+
 def _r1(ctx):
+    want = {0: {"O": 1}, 1: {"O": 1, "P": 1}, 2: {"O": 1, "T": 1}}
     for key in SEEKERS:
         rel, cls = F.rel_cls(key)
         fn = F.method(ctx, key, "seek")
         q = cls + ".seek"
-        env = _seek_env(fn)
-        # find the if/elif chain on whence
-        chain = None
-        for n in walk_no_nested(fn):
-            if isinstance(n, ast.If) and _whence_of(n.test) is not None:
-                chain = n
-                break
-        if chain is None:
-            ctx.undecided("C18-R1", fn, rel, q, "whence chain", "no `if whence == ...` chain found")
-            continue
-        branches = {}
-        cur = chain
-        else_body = None
-        while True:
-            w = _whence_of(cur.test)
-            offs = src(cur.test)
-            branches.setdefault(w, []).append((cur.test, cur.body))
-            if len(cur.orelse) == 1 and isinstance(cur.orelse[0], ast.If) and _whence_of(cur.orelse[0].test) is not None:
-                cur = cur.orelse[0]
-                continue
-            else_body = cur.orelse
-            break
-        want = {0: {"O": 1}, 1: {"O": 1, "P": 1}, 2: {"O": 1, "T": 1}}
-        for w in (0, 1, 2):
-            desc = "whence==%d" % w
-            if w not in branches:
-                ctx.violated("C18-R1", chain, rel, q, desc, "no branch handles whence==%d" % w)
-                continue
-            for (test, body) in branches[w]:
-                if any(isinstance(s, ast.Raise) for s in body):
-                    r = [s for s in body if isinstance(s, ast.Raise)][0]
-                    en = src(r.exc)
-                    ok = w == 2 and "NotImplementedError" in en
-                    ctx.decide(ok, "C18-R1", r, rel, q, desc + " [%s]" % src(test), "documented as not implemented",
-                               "whence==%d raises %s" % (w, en))
+        for w in (0, 1, 2, 7):
+            for sign in ("neg", "zero", "pos"):
+                desc = "seek(offset %s, whence=%s)" % ({"neg": "< 0", "zero": "== 0", "pos": "> 0"}[sign], w if w != 7 else "other")
+                it = _SeekInterp(ctx, key, w, sign)
+                try:
+                    paths = it.block(fn.body, _SeekState())
+                except _Undec as e:
+                    ctx.undecided("C18-R1", fn, rel, q, desc, str(e))
                     continue
-                got = None
-                for s in body:
-                    for a in ast.walk(s):
-                        if isinstance(a, ast.Assign):
-                            t = dotted(a.targets[0])
-                            if t in ("self._frame_index", "self.frame_counter", "absolute"):
-                                got = lin(a.value, env)
-                                what = src(a)
-                            elif t == "advance":
-                                l = lin(a.value, env)
-                                if l is not None:
-                                    got = dict(l)
-                                    got["P"] = got.get("P", 0) + 1
-                                    got = {k: v for k, v in got.items() if v != 0}
-                                what = src(a)
-                            elif isinstance(a.targets[0], ast.Tuple):
-                                pass
-                        if isinstance(a, ast.AugAssign) and dotted(a.target) in ("self._frame_index", "self.frame_counter"):
-                            l = lin(a.value, env)
-                            if l is not None:
-                                got = dict(l)
-                                got["P"] = got.get("P", 0) + 1
-                            what = src(a)
-                if got is None:
-                    ctx.undecided("C18-R1", test, rel, q, desc + " [%s]" % src(test), "no position assignment recognised in the branch")
-                    continue
-                ctx.decide(got == want[w], "C18-R1", test, rel, q, desc + " [%s]" % src(test), "new position = %s" % fmt(got),
-                           "branch sets the position to `%s` (from `%s`), expected %s" % (fmt(got), what, fmt(want[w])))
-        ok = bool(else_body) and any(isinstance(s, ast.Raise) for s in else_body)
-        ctx.decide(ok, "C18-R1", chain, rel, q, "other arguments", "rejected with an error", "invalid whence/offset combinations are silently accepted")
-        # assignments of the position outside the whence chain may only clamp to [0, len]
-        chain_nodes = {id(x) for x in ast.walk(chain)}
-        for a in walk_no_nested(fn):
-            if isinstance(a, ast.Assign) and dotted(a.targets[0]) in ("self._frame_index", "self.frame_counter") and id(a) not in chain_nodes:
-                l = lin(a.value, env)
-                s2 = src(a.value).replace(" ", "")
-                okc = l in ({"T": 1}, {}, {"P": 1}) or l == lin(ast.parse("absolute", mode="eval").body, dict(env, absolute={"A": 1})) or dotted(a.value) in ("absolute", "pos") \
-                    or (l is not None and len(l) == 1 and isinstance(list(l)[0], tuple) and (_freeze({"T": 1}) in list(l)[0][1:]) and (_freeze({"P": 1}) in list(l)[0][1:])) \
-                    or const(a.value) == 0
-                ctx.decide(okc, "C18-R1", a, rel, q, "position re-assigned after the whence table: `%s`" % src(a)[:50], "clamp to [0, len]",
-                           "`%s` moves a legal position (e.g. the end position len, from which read() returns nothing): seek(len) then lands on the last frame" % src(a)[:70])
+                valid = (w in (0, 1) and sign != "neg") or (w == 1) or (w == 2 and sign != "pos")
+                bad = None
+                n_set = n_raise = 0
+                for (st, status) in paths:
+                    if status.startswith("raise:"):
+                        n_raise += 1
+                        exc = status[6:]
+                        if not valid:
+                            continue
+                        if w == 2 and "NotImplementedError" in exc:
+                            continue
+                        if _refusal_ok(want[w], [c for c in st.conds]):
+                            continue
+                        bad = bad or "%s is refused with `%s` although the arguments are valid" % (desc, exc[:60])
+                    else:
+                        n_set += 1
+                        if w == 7:
+                            bad = bad or "an unknown whence is accepted silently (position becomes %s)" % fmt(st.P)
+                        elif not valid:
+                            if not (_clamp_ok(st.P, want[w], st.conds) and st.P in ({}, {"T": 1})):
+                                bad = bad or "%s is accepted: the position becomes %s, outside [0, len]; an error is expected" % (desc, fmt(st.P))
+                        elif not _clamp_ok(st.P, want[w], st.conds):
+                            path = "; ".join("%s %s %s is %s" % (fmt(dict((k, v) for k, v in c[0])) if c[0] != "env" else c[1], c[1] if c[0] != "env" else "", fmt(dict(c[2])) if c[2] is not None else "", c[3]) for c in st.conds)
+                            bad = bad or "the position becomes %s, expected %s%s" % (fmt(st.P), fmt(want[w]), (" (path: %s)" % path[:160]) if path else "")
+                ctx.decide(bad is None, "C18-R1", fn, rel, q, desc, "%d path(s): %d set the position to %s, %d refuse" % (
+                    len(paths), n_set, fmt(want.get(w, {})) if w != 7 else "-", n_raise), bad or "")
+
+
+def _norm(text):
+    return src(ast.parse(text, mode="eval").body)
+
+
+def _window_bound(fn):
+    """(bound, call): read() clamps its window with min(<position> + n_frames, <bound>); `bound` with single-definition locals inlined."""
+    from ..pyfront import inline_locals
+    for c in walk_no_nested(fn):
+        if isinstance(c, ast.Call) and call_name(c) == "min" and len(c.args) == 2:
+            a = [inline_locals(fn, x) for x in c.args]
+            arms = [k for k in (0, 1) if "n_frames" in a[k] and any(p in a[k] for p in POS_FIELDS)]
+            if len(arms) == 1:
+                return _norm(a[1 - arms[0]]), c
+    return None, None
+
+
+class _SliceFields(ast.NodeTransformer):
+    """slice(a, b, c).start -> a, .stop -> b, .step -> c"""
+    def visit_Attribute(self, node):
+        self.generic_visit(node)
+        v = node.value
+        if isinstance(v, ast.Call) and call_name(v) == "slice" and node.attr in ("start", "stop", "step"):
+            k = {"start": 0, "stop": 1, "step": 2}[node.attr]
+            args = list(v.args)
+            if len(args) == 1:
+                args = [ast.Constant(0), args[0]]
+            if k < len(args):
+                return args[k]
+        return node
 
 
 def _r2(ctx):
+    from ..pyfront import inline_locals
     for key in ("h5", "nc", "lh5"):
         rel, cls = F.rel_cls(key)
         fn = F.method(ctx, key, "read")
         q = cls + ".read"
-        env = {"self._frame_index": {"P": 1}, "n_frames": {"N": 1}, "total_n_frames": {"T": 1}, "self.n_frames": {"T": 1}}
-        # frame_slice = slice(start, stop, step)
+        bound, _mc = _window_bound(fn)
+        env = {"self._frame_index": {"P": 1}, "n_frames": {"N": 1}, "self.n_frames": {"T": 1}}
+        if bound is not None:
+            env[bound] = {"T": 1}
+
+        def value(e):
+            t = _SliceFields().visit(ast.parse(inline_locals(fn, e), mode="eval").body)
+            return lin(ast.parse(src(t), mode="eval").body, env), t
+        # the window read: slice(<position>, <stop>, <step>)
         sl = None
         for n in walk_no_nested(fn):
-            if isinstance(n, ast.Assign) and dotted(n.targets[0]) == "frame_slice" and isinstance(n.value, ast.Call) and call_name(n.value) == "slice":
-                sl = n.value
-        if sl is not None and len(sl.args) >= 2:
-            env["frame_slice.start"] = lin(sl.args[0], env) or {"?start": 1}
-            st = lin(sl.args[1], env)
-            env["frame_slice.stop"] = st if st is not None else {"?stop": 1}
-        # local single-assignment names (e.g. frame_stop = min(...))
-        for n in walk_no_nested(fn):
-            if isinstance(n, ast.Assign) and isinstance(n.targets[0], ast.Name) and n.targets[0].id not in ("n_frames", "total_n_frames"):
-                l = lin(n.value, env)
-                if l is not None and n.targets[0].id not in env:
-                    env[n.targets[0].id] = l
+            if isinstance(n, ast.Call) and call_name(n) == "slice" and len(n.args) >= 2 and value(n.args[0])[0] == {"P": 1}:
+                sl = n
         new = None
         site = None
         for n in walk_no_nested(fn):
             if isinstance(n, ast.AugAssign) and dotted(n.target) == "self._frame_index" and isinstance(n.op, ast.Add):
-                l = lin(n.value, env)
+                l, _t = value(n.value)
                 if l is not None:
                     new = dict(l)
                     new["P"] = new.get("P", 0) + 1
                     new = {k: v for k, v in new.items() if v != 0}
                 site = n
             if isinstance(n, ast.Assign) and dotted(n.targets[0]) == "self._frame_index":
-                new = lin(n.value, env)
+                new, _t = value(n.value)
                 site = n
         if site is None:
             ctx.undecided("C18-R2", fn, rel, q, "position update", "no update of self._frame_index in read()")
             continue
         if new is None:
-            v_ = site.value if isinstance(site, ast.AugAssign) else None
+            v_ = value(site.value)[1] if isinstance(site, ast.AugAssign) else None
             counts_returned = v_ is not None and ((isinstance(v_, ast.Call) and call_name(v_) == "len") or src(v_).endswith(".shape[0]"))
             strided = sl is not None and len(sl.args) >= 3 and not (isinstance(sl.args[2], ast.Constant) and sl.args[2].value in (None, 1))
             if counts_returned and strided:
                 ctx.violated("C18-R2", site, rel, q, "new position",
                              "the position advances by `%s`, the number of frames *returned*, while the window read is `%s` with step `%s`: with stride s the next read starts inside the "
-                             "span already consumed (chunks overlap, tell() lags behind)" % (src(v_), src(sl.args[1])[:60], src(sl.args[2])))
+                             "span already consumed (chunks overlap, tell() lags behind)" % (src(site.value), src(sl.args[1])[:60], src(sl.args[2])))
             else:
                 ctx.undecided("C18-R2", site, rel, q, "position update", "cannot evaluate `%s` symbolically" % src(site))
             continue
         bounded = False
         if len(new) == 1:
             (k, v), = new.items()
-            if isinstance(k, tuple) and v == 1 and (k[1] == _freeze({"T": 1}) or k[2] == _freeze({"T": 1})):
+            if isinstance(k, tuple) and k[0] == "min" and v == 1 and (k[1] == _freeze({"T": 1}) or k[2] == _freeze({"T": 1})):
                 other = dict(k[2] if k[1] == _freeze({"T": 1}) else k[1])
                 bounded = other == {"P": 1, "N": 1}
         if bounded:
@@ -368,9 +698,25 @@ def _r3(ctx):
                "one increment per frame", "unexpected position arithmetic in DTR read")
 
 
-def _opener_calls(fn):
-    res = []
+def _nodes_with_helpers(ctx, key, fn, depth=0, seen=None):
+    """nodes of fn and of the private methods self._x() it calls (a reopen written as a helper is still the reopen)."""
+    seen = seen if seen is not None else set()
+    out = []
     for n in walk_no_nested(fn):
+        out.append(n)
+        if isinstance(n, ast.Call) and depth < 3:
+            nm = call_name(n) or ""
+            if nm.startswith("self._") and nm.count(".") == 1 and nm[5:] not in ("_read", "_validate") and nm not in seen:
+                h = F.method(ctx, key, nm[5:], required=False)
+                if h is not None:
+                    seen.add(nm)
+                    out += _nodes_with_helpers(ctx, key, h, depth + 1, seen)
+    return out
+
+
+def _opener_calls(fn, nodes=None):
+    res = []
+    for n in (nodes if nodes is not None else walk_no_nested(fn)):
         if isinstance(n, ast.Call):
             d = call_name(n)
             if d in ("open", "open_maybe_zipped", "gzip.open", "bz2.open", "io.open") or (d or "").endswith(("xdrfile_open", "open_dcd_read", "dcd_rewind")):
@@ -393,14 +739,15 @@ def _r4(ctx):
             if fn is None:
                 continue
             q = "%s.%s" % (cls, mname)
-            ops = _opener_calls(fn)
+            nodes = _nodes_with_helpers(ctx, key, fn)
+            ops = _opener_calls(fn, nodes)
             for d, n in ops:
                 ctx.decide(d in ctor_openers, "C18-R4", n, rel, q, "reopen with %s" % d, "same opener as the constructor's read branch",
                            "the file is re-opened with %s but the constructor opens it with %s: compressed files (.gz/.bz2) opened "
                            "fine are then read as raw bytes" % (d, "/".join(sorted(ctor_openers))))
             if mname == "seek" and ops:
                 # every counter of the constructor is reset in the reopen branch
-                body_assigns = {dotted(a.targets[0]) for a in walk_no_nested(fn) if isinstance(a, ast.Assign) and dotted(a.targets[0])}
+                body_assigns = {dotted(a.targets[0]) for a in nodes if isinstance(a, ast.Assign) and dotted(a.targets[0])}
                 # counters that the constructor also advances while consuming the header
                 for c in sorted(counters):
                     if c in ("self._frame_index", "self._line_counter"):
@@ -411,7 +758,7 @@ def _r4(ctx):
     fn = F.method(ctx, "mdcrd", "seek")
     init = F.method(ctx, "mdcrd", "__init__")
     hdr_init = sum(1 for n in walk_no_nested(init) if isinstance(n, ast.Call) and call_name(n) == "self._fh.readline")
-    hdr_seek = sum(1 for n in walk_no_nested(fn) if isinstance(n, ast.Call) and call_name(n) == "self._fh.readline")
+    hdr_seek = sum(1 for n in _nodes_with_helpers(ctx, "mdcrd", fn) if isinstance(n, ast.Call) and call_name(n) == "self._fh.readline")
     ctx.decide(hdr_init == hdr_seek, "C18-R4", fn, rel, cls + ".seek", "header consumed after reopen",
                "%d header line(s) skipped in both" % hdr_init, "constructor skips %d header line(s), reopen skips %d" % (hdr_init, hdr_seek))
 
@@ -557,18 +904,19 @@ def _contains(root, node):
 
 def r6_len_is_read_total(ctx):
     """Array-backed readers: len() returns the quantity that bounds the read window (both sides of the cursor invariant 0 <= position <= len)."""
+    from ..pyfront import inline_locals
     for key in ("h5", "nc", "lh5"):
         rel, cls = F.rel_cls(key)
         rd = F.method(ctx, key, "read")
         ln = F.method(ctx, key, "__len__")
-        tot = [n for n in walk_no_nested(rd) if isinstance(n, ast.Assign) and dotted(n.targets[0]) in ("total_n_frames", "n_total", "total")]
+        t, _c = _window_bound(rd)
         rets = [n for n in walk_no_nested(ln) if isinstance(n, ast.Return) and n.value is not None]
-        if len(tot) != 1 or not rets:
-            ctx.undecided("C18-R6", rd, rel, cls + ".read", "total number of frames", "the bound of the read window / the return of __len__ was not found")
+        if t is None or not rets:
+            ctx.undecided("C18-R6", rd, rel, cls + ".read", "total number of frames", "the bound of the read window min(position + n_frames, <bound>) / the return of __len__ was not found")
             continue
-        t = src(tot[0].value).replace(" ", "")
-        got = sorted({src(r.value).replace(" ", "") for r in rets})
-        ok = got == [t]
+        got = sorted({_norm(inline_locals(ln, r.value)) for r in rets})
+        same = {t, "self.n_frames"} if key == "nc" else {t}   # netCDF: n_frames is the property both sides read
+        ok = all(g in same for g in got)
         ctx.decide(ok, "C18-R6", rets[0], rel, cls + ".__len__", "len() returns `%s`, the bound read() clamps its window to" % t, "",
                    "len() returns %s while read() clamps its window to `%s`: the two can disagree (another variable, another backend), and tell() <= len() is no longer guaranteed" % (got, t))
 
